@@ -201,16 +201,32 @@ Lemma sub_tick_keeps s vars now timer rq s' :
 Proof. intros H. apply sub_tick_static in H. destruct H as (H1 & H2 & _). auto. Qed.
 
 (* --------------------------------------------------------------- invariant of a history *)
-Lemma create_prios_app a b : create_prios (a ++ b) = create_prios a ++ create_prios b.
+(* set_nth (C21/Sys.v) *)
+Lemma set_nth_length {A} (x : A) : forall n l, length (set_nth n x l) = length l.
 Proof.
-  induction a as [|o a IH]; [reflexivity|]. destruct o; cbn [app create_prios]; rewrite ?IH; reflexivity.
+  induction n as [|n IH]; intros [|a l]; cbn [set_nth length]; try reflexivity.
+  rewrite IH. reflexivity.
+Qed.
+Lemma nth_set_nth_same {A} (x d : A) : forall n l, (n < length l)%nat -> nth n (set_nth n x l) d = x.
+Proof.
+  induction n as [|n IH]; intros [|a l] H; cbn [length] in H; try lia; cbn [set_nth nth]; [reflexivity|].
+  apply IH. lia.
+Qed.
+Lemma nth_set_nth_other {A} (x d : A) : forall n m l, n <> m -> nth m (set_nth n x l) d = nth m l d.
+Proof.
+  induction n as [|n IH]; intros m [|a l] H; cbn [set_nth]; try reflexivity.
+  - destruct m; [congruence | reflexivity].
+  - destruct m; [reflexivity|]. cbn [nth]. apply IH. congruence.
 Qed.
 
-(* after the operations [pre] of case c *)
-Definition Inv (c : case) (pre : list op) (y : sys) : Prop :=
+Lemma prios_after_snoc pre h : prios_after (pre ++ [h]) = prio_step (prios_after pre) h.
+Proof. unfold prios_after. rewrite fold_left_app. reflexivity. Qed.
+
+(* the state y agrees with the requested priorities ps *)
+Definition Inv (ps : list Z) (y : sys) : Prop :=
   NoDup (ids (y_subs y)) /\
-  y_nextsub y = 1 + len (create_prios pre) /\
-  (forall s, In s (y_subs y) -> 1 <= s_id s < y_nextsub y /\ s_prio s = prio_of c (s_id s)).
+  y_nextsub y = 1 + len ps /\
+  (forall s, In s (y_subs y) -> 1 <= s_id s < y_nextsub y /\ s_prio s = pr ps (s_id s)).
 
 (* a system change that keeps next id and only keeps / drops / statically-equal-replaces subs *)
 Definition sub_step (y y' : sys) : Prop :=
@@ -230,10 +246,9 @@ Proof.
   exists s0. repeat split; [exact H0 | congruence | congruence].
 Qed.
 
-Lemma Inv_sub_step c pre o y y' :
-  Inv c pre y -> sub_step y y' -> create_prios [o] = [] -> Inv c (pre ++ [o]) y'.
+Lemma Inv_sub_step ps y y' : Inv ps y -> sub_step y y' -> Inv ps y'.
 Proof.
-  intros (I1 & I2 & I3) (S1 & S2 & S3) Ho. unfold Inv. rewrite create_prios_app, Ho, app_nil_r.
+  intros (I1 & I2 & I3) (S1 & S2 & S3). unfold Inv.
   split; [auto|]. split; [congruence|].
   intros s H. destruct (S3 s H) as (s0 & H0 & E1 & E2). destruct (I3 s0 H0) as (J1 & J2).
   rewrite S2, E1, E2. split; [lia | exact J2].
@@ -275,13 +290,13 @@ Lemma expire_sub_step y : sub_step y (fst (expire y)).
 Proof. apply sub_step_eq; reflexivity. Qed.
 
 (* ------------------------------------------------------------ the oracle on one operation *)
-Lemma none_starved_intro c answered (subs : list sub) :
-  (forall i s', In i answered -> In s' subs -> prio_of c i < prio_of c (s_id s') -> s_notifs s' = []) ->
-  none_starved c answered (map (fun s => (s_id s, s_state s, len (s_notifs s))) subs) = true.
+Lemma none_starved_intro ps answered (subs : list sub) :
+  (forall i s', In i answered -> In s' subs -> pr ps i < pr ps (s_id s') -> s_notifs s' = []) ->
+  none_starved ps answered (map (fun s => (s_id s, s_state s, len (s_notifs s))) subs) = true.
 Proof.
   intros H. unfold none_starved. apply forallb_forall. intros i Hi. apply forallb_forall.
   intros t Ht. apply in_map_iff in Ht as (s' & <- & Hs').
-  destruct (Z.ltb_spec (prio_of c i) (prio_of c (s_id s'))) as [Hlt|Hge]; [|reflexivity].
+  destruct (Z.ltb_spec (pr ps i) (pr ps (s_id s'))) as [Hlt|Hge]; [|reflexivity].
   rewrite (H i s' Hi Hs' Hlt). reflexivity.
 Qed.
 
@@ -298,16 +313,14 @@ Qed.
 Lemma expire_subs y : resp_subs (snd (expire y)) = [].
 Proof. unfold expire. cbn [snd]. apply resp_subs_faults. intros q. eauto. Qed.
 
-Definition P_of (c : case) : Z -> Z := prio_of c.
-
-Lemma tick_round c y timer y' rs :
-  NoDup (ids (y_subs y)) -> (forall s, In s (y_subs y) -> s_prio s = prio_of c (s_id s)) ->
+Lemma tick_round ps y timer y' rs :
+  NoDup (ids (y_subs y)) -> (forall s, In s (y_subs y) -> s_prio s = pr ps (s_id s)) ->
   sys_tick y timer = Some (y', rs) ->
-  non_increasing (map (prio_of c) (resp_subs rs)) = true /\
-  none_starved c (resp_subs rs) (sn_subs (snapshot y')) = true.
+  non_increasing (map (pr ps) (resp_subs rs)) = true /\
+  none_starved ps (resp_subs rs) (sn_subs (snapshot y')) = true.
 Proof.
   intros Hnd HP H.
-  destruct (sys_tick_prio sub_tick sub_tick_keeps (prio_of c) _ _ _ _ Hnd HP H) as (A & B & _).
+  destruct (sys_tick_prio sub_tick sub_tick_keeps (pr ps) _ _ _ _ Hnd HP H) as (A & B & _).
   split; [exact A|]. unfold snapshot. cbn [sn_subs]. apply none_starved_intro. exact B.
 Qed.
 
@@ -316,16 +329,18 @@ Proof.
   intros Hl Hx. eapply Permutation_NoDup; [apply Permutation_cons_append|]. constructor; assumption.
 Qed.
 
-Lemma step_ok c pre o suf y opix y1 st m rs :
-  c_ops c = pre ++ o :: suf -> Inv c pre y -> step y opix o = Some (y1, st, m, rs) ->
-  Inv c (pre ++ [o]) y1 /\ check_op c o (snapshot y) (mk_opres st m rs (snapshot y1)) = true.
+(* the operations of C21/Sys.v *)
+Lemma step_ok ps o y opix y1 st m rs :
+  Inv ps y -> step y opix o = Some (y1, st, m, rs) ->
+  Inv (prio_step ps (HOp o)) y1 /\
+  check_op (prio_step ps (HOp o)) (HOp o) (snapshot y) (mk_opres st m rs (snapshot y1)) = true.
 Proof.
-  intros Hc HI Hstep. pose proof HI as (I1 & I2 & I3).
-  assert (HP : forall s, In s (y_subs y) -> s_prio s = prio_of c (s_id s)) by (intros s Hs; apply I3; exact Hs).
-  unfold step, step_g in Hstep. destruct o; unfold check_op; cbn [o_resps o_snap].
+  intros HI Hstep. pose proof HI as (I1 & I2 & I3).
+  assert (HP : forall s, In s (y_subs y) -> s_prio s = pr ps (s_id s)) by (intros s Hs; apply I3; exact Hs).
+  unfold step, step_g in Hstep. destruct o; unfold check_op; cbn [prio_step o_resps o_snap].
   - (* OWrite *)
     destruct (_ || _); inversion Hstep; subst; (split; [|reflexivity]);
-    (eapply Inv_sub_step; [exact HI | (apply sub_step_eq; reflexivity) | reflexivity]).
+    (eapply Inv_sub_step; [exact HI | (apply sub_step_eq; reflexivity)]).
   - (* OTick *)
     destruct (expire (set_now y (y_now y + dt))) as [ye rs1] eqn:Ee. unfold bind in Hstep.
     destruct (sys_tick ye true) as [[y2 rs2]|] eqn:Et; [|discriminate].
@@ -336,11 +351,11 @@ Proof.
     assert (Hrs1 : resp_subs rs1 = []).
     { pose proof (expire_subs (set_now y (y_now y + dt))) as H. rewrite Ee in H. exact H. }
     split.
-    + eapply Inv_sub_step; [exact HI | | reflexivity].
+    + eapply Inv_sub_step; [exact HI |].
       apply sys_tick_sub_step in Et. destruct Et as (T1 & T2 & T3). rewrite Hs, Hn in *.
       repeat split; assumption.
     + rewrite resp_subs_app, Hrs1. cbn [app]. apply andb_true_iff.
-      apply (tick_round c ye true y2 rs2); [rewrite Hs; exact I1 | rewrite Hs; exact HP | exact Et].
+      apply (tick_round ps ye true y2 rs2); [rewrite Hs; exact I1 | rewrite Hs; exact HP | exact Et].
   - (* OPublish *)
     unfold publish_g in Hstep. unfold bind in Hstep. cbn [y_subs y_reqs set_now set_nextrid y_nextrid] in Hstep.
     set (y0 := set_nextrid (set_now y (y_now y + dt)) (y_nextrid y + 1)) in *.
@@ -349,7 +364,7 @@ Proof.
       f_equal. lia. }
     destruct (is_nil (y_subs y)) eqn:Enil.
     { inversion Hstep; subst. split.
-      - eapply Inv_sub_step; [exact HI | (apply sub_step_eq; reflexivity) | reflexivity].
+      - eapply Inv_sub_step; [exact HI | (apply sub_step_eq; reflexivity)].
       - cbn. destruct (queue_full _); reflexivity. }
     destruct (len (y_subs y) * 2 <=? len (y_reqs y)) eqn:Efull.
     + (* two rounds *)
@@ -357,23 +372,22 @@ Proof.
       destruct (sys_tick y0 false) as [[ya rsa]|] eqn:Eta; [|discriminate].
       assert (Hsa : sub_step y ya).
       { apply sys_tick_sub_step in Eta. destruct Eta as (T1 & T2 & T3). repeat split; assumption. }
-      pose proof (tick_round c y0 false ya rsa I1 HP Eta) as [Ra _].
+      pose proof (tick_round ps y0 false ya rsa I1 HP Eta) as [Ra _].
       destruct (len (y_subs y) * 2 <=? len (y_reqs ya)).
       * injection Hstep as <- <- <- <-. split.
-        -- eapply Inv_sub_step; [exact HI | exact Hsa | reflexivity].
+        -- eapply Inv_sub_step; [exact HI | exact Hsa].
         -- apply two_runs_of_non_increasing. exact Ra.
       * destruct (process_acks (y_subs ya) acks (y_retrans ya)) as [results rt] eqn:Ea.
         set (yb := set_reqs (set_retrans ya rt) _) in *.
         destruct (sys_tick yb false) as [[yc rsc]|] eqn:Etc; [|discriminate].
         cbn [fst snd] in Hstep. injection Hstep as <- <- <- <-.
-        assert (Hia : Inv c (pre ++ [OPublish dt hint acks]) ya)
-          by (eapply Inv_sub_step; [exact HI | exact Hsa | reflexivity]).
+        assert (Hia : Inv ps ya) by (eapply Inv_sub_step; [exact HI | exact Hsa]).
         destruct Hia as (J1 & J2 & J3).
-        assert (HPb : forall s, In s (y_subs yb) -> s_prio s = prio_of c (s_id s)) by (intros s Hs; apply J3; exact Hs).
-        pose proof (tick_round c yb false yc rsc J1 HPb Etc) as [Rc _].
+        assert (HPb : forall s, In s (y_subs yb) -> s_prio s = pr ps (s_id s)) by (intros s Hs; apply J3; exact Hs).
+        pose proof (tick_round ps yb false yc rsc J1 HPb Etc) as [Rc _].
         split.
         -- apply sys_tick_sub_step in Etc.
-           eapply Inv_sub_step; [exact HI | | reflexivity].
+           eapply Inv_sub_step; [exact HI |].
            eapply sub_step_trans; [exact Hsa|]. destruct Etc as (T1 & T2 & T3). repeat split; assumption.
         -- rewrite resp_subs_app, map_app. apply two_runs_app; assumption.
     + (* one round *)
@@ -383,12 +397,12 @@ Proof.
       destruct (sys_tick yb false) as [[yc rsc]|] eqn:Etc; [|discriminate].
       cbn [fst snd app] in Hstep. injection Hstep as <- <- <- <-.
       split.
-      * apply sys_tick_sub_step in Etc. eapply Inv_sub_step; [exact HI | | reflexivity].
+      * apply sys_tick_sub_step in Etc. eapply Inv_sub_step; [exact HI |].
         destruct Etc as (T1 & T2 & T3). repeat split; assumption.
-      * apply andb_true_iff. apply (tick_round c yb false yc rsc I1 HP Etc).
-  - (* OCreateSub *)
+      * apply andb_true_iff. apply (tick_round ps yb false yc rsc I1 HP Etc).
+  - (* OCreateSub: the new id gets the requested priority, the others keep theirs *)
     inversion Hstep; subst. clear Hstep. split; [|reflexivity].
-    unfold Inv. cbn [y_subs y_nextsub set_nextsub set_subs]. rewrite create_prios_app. cbn [create_prios].
+    unfold Inv. cbn [y_subs y_nextsub set_nextsub set_subs].
     assert (Hn : 1 <= y_nextsub y) by (rewrite I2; unfold len; lia).
     unfold ids. rewrite map_app. cbn [map s_id]. repeat split.
     + apply NoDup_app_intro_single. { exact I1. }
@@ -396,64 +410,123 @@ Proof.
     + rewrite I2. unfold len. rewrite app_length, Nat2Z.inj_add. cbn [length]. lia.
     + apply in_app_iff in H as [H|[<-|[]]]; [destruct (I3 s H); lia | cbn [s_id]; lia].
     + apply in_app_iff in H as [H|[<-|[]]]; [destruct (I3 s H); lia | cbn [s_id]; lia].
-    + apply in_app_iff in H as [H|[<-|[]]]; [apply I3; exact H|]. cbn [s_id s_prio].
-      unfold prio_of. rewrite Hc, create_prios_app. cbn [create_prios].
-      rewrite I2. unfold len. replace (1 + Z.of_nat (length (create_prios pre)) - 1) with (Z.of_nat (length (create_prios pre))) by lia.
-      rewrite Nat2Z.id, app_nth2 by lia. rewrite Nat.sub_diag. reflexivity.
+    + apply in_app_iff in H as [H|[<-|[]]].
+      * destruct (I3 s H) as [Hr Hp]. rewrite Hp. unfold pr. rewrite app_nth1; [reflexivity|].
+        rewrite I2 in Hr. unfold len in Hr. lia.
+      * cbn [s_id s_prio]. unfold pr.
+        rewrite I2. unfold len. replace (1 + Z.of_nat (length ps) - 1) with (Z.of_nat (length ps)) by lia.
+        rewrite Nat2Z.id, app_nth2 by lia. rewrite Nat.sub_diag. reflexivity.
   - (* ODeleteSub *)
     destruct (has_sub sub (y_subs y)); inversion Hstep; subst; (split; [|reflexivity]);
-    (eapply Inv_sub_step; [exact HI | | reflexivity]); [apply remove_sub_step | (apply sub_step_eq; reflexivity)].
+    (eapply Inv_sub_step; [exact HI | ]); [apply remove_sub_step | (apply sub_step_eq; reflexivity)].
   - (* OCreateItem *)
     destruct (find_sub sub (y_subs y)) as [s|] eqn:Ef.
     + pose proof (find_sub_some _ _ _ Ef) as [_ Hid]. rewrite <- Hid in Ef.
       destruct (_ || _); inversion Hstep; subst; (split; [|reflexivity]);
-      (eapply Inv_sub_step; [exact HI | | reflexivity]); (eapply replace_sub_step; [exact Ef | reflexivity | reflexivity]).
+      (eapply Inv_sub_step; [exact HI | ]); (eapply replace_sub_step; [exact Ef | reflexivity | reflexivity]).
     + inversion Hstep; subst. split; [|reflexivity].
-      eapply Inv_sub_step; [exact HI | (apply sub_step_eq; reflexivity) | reflexivity].
+      eapply Inv_sub_step; [exact HI | (apply sub_step_eq; reflexivity)].
   - (* ODeleteItem *)
     destruct (find_sub sub (y_subs y)) as [s|] eqn:Ef.
     + pose proof (find_sub_some _ _ _ Ef) as [_ Hid]. rewrite <- Hid in Ef.
       destruct (existsb _ _); inversion Hstep; subst; (split; [|reflexivity]);
-      (eapply Inv_sub_step; [exact HI | | reflexivity]); (eapply replace_sub_step; [exact Ef | reflexivity | reflexivity]).
+      (eapply Inv_sub_step; [exact HI | ]); (eapply replace_sub_step; [exact Ef | reflexivity | reflexivity]).
     + inversion Hstep; subst. split; [|reflexivity].
-      eapply Inv_sub_step; [exact HI | (apply sub_step_eq; reflexivity) | reflexivity].
+      eapply Inv_sub_step; [exact HI | (apply sub_step_eq; reflexivity)].
   - (* ORepublish *)
     destruct (find_sub sub (y_subs y)) as [s|] eqn:Ef.
     + pose proof (find_sub_some _ _ _ Ef) as [_ Hid]. rewrite <- Hid in Ef.
       destruct (rt_find _ _); inversion Hstep; subst; (split; [|reflexivity]);
-      (eapply Inv_sub_step; [exact HI | | reflexivity]);
+      (eapply Inv_sub_step; [exact HI | ]);
       [eapply replace_sub_step; [exact Ef | reflexivity | reflexivity] | (apply sub_step_eq; reflexivity)].
     + inversion Hstep; subst. split; [|reflexivity].
-      eapply Inv_sub_step; [exact HI | (apply sub_step_eq; reflexivity) | reflexivity].
+      eapply Inv_sub_step; [exact HI | (apply sub_step_eq; reflexivity)].
   - (* OSetPublishing *)
     destruct (find_sub sub (y_subs y)) as [s|] eqn:Ef.
     + pose proof (find_sub_some _ _ _ Ef) as [_ Hid]. rewrite <- Hid in Ef.
       inversion Hstep; subst; (split; [|reflexivity]);
-      (eapply Inv_sub_step; [exact HI | | reflexivity]); (eapply replace_sub_step; [exact Ef | reflexivity | reflexivity]).
+      (eapply Inv_sub_step; [exact HI | ]); (eapply replace_sub_step; [exact Ef | reflexivity | reflexivity]).
     + inversion Hstep; subst. split; [|reflexivity].
-      eapply Inv_sub_step; [exact HI | (apply sub_step_eq; reflexivity) | reflexivity].
+      eapply Inv_sub_step; [exact HI | (apply sub_step_eq; reflexivity)].
 Qed.
 
-Lemma run_ops_ok c : forall suf pre y opix,
-  c_ops c = pre ++ suf -> Inv c pre y ->
-  check_trace c suf (snapshot y) (fst (run_ops y opix suf)) = true.
+(* what is in the map after a replacement, for distinct ids *)
+Lemma in_replace_sub_strong s' : forall subs x,
+  NoDup (ids subs) -> In x (replace_sub s' subs) -> x = s' \/ (In x subs /\ s_id x <> s_id s').
 Proof.
-  induction suf as [|o suf IH]; intros pre y opix Hc HI; [reflexivity|].
-  unfold run_ops in *. cbn [run_ops_g].
-  destruct (step_g sys_tick y opix o) as [[[[y1 st] m] rs]|] eqn:Es; [|reflexivity].
-  destruct (run_ops_g sys_tick y1 (opix + 1) suf) as [tr p] eqn:Er. cbn [fst check_trace o_snap].
-  destruct (step_ok c pre o suf y opix y1 st m rs Hc HI Es) as [HI1 Hck]. rewrite Hck. cbn [andb].
-  specialize (IH (pre ++ [o]) y1 (opix + 1)). rewrite Er in IH. cbn [fst] in IH.
-  apply IH; [rewrite <- app_assoc; exact Hc | exact HI1].
+  induction subs as [|a r IH]; intros x Hnd Hx; [destruct Hx|].
+  cbn [replace_sub] in Hx. cbn [ids map] in Hnd. inversion Hnd as [|? ? Ha Hr]; subst.
+  destruct (Z.eqb_spec (s_id a) (s_id s')) as [E|E].
+  - destruct Hx as [Hx|Hx]; [left; symmetry; exact Hx|].
+    right. split; [right; exact Hx|]. intros Ex. apply Ha. rewrite E, <- Ex. apply in_map. exact Hx.
+  - destruct Hx as [Hx|Hx]; [subst x; right; split; [left; reflexivity | exact E]|].
+    destruct (IH x Hr Hx) as [->|[H1 H2]]; [left; reflexivity | right; split; [right; exact H1 | exact H2]].
 Qed.
 
-Lemma init_inv c : Inv c [] (init c).
-Proof. unfold Inv, init. cbn. split; [constructor|]. split; [reflexivity|]. intros s []. Qed.
+(* ModifySubscription: the modified subscription gets the requested priority in the state exactly
+   when the specification records it; every other live subscription keeps its priority *)
+Lemma modify_ok ps id prio interval kac life y opix y1 st m rs :
+  Inv ps y -> hstep y opix (HModifySub id prio interval kac life) = Some (y1, st, m, rs) ->
+  Inv (prio_step ps (HModifySub id prio interval kac life)) y1 /\ rs = [].
+Proof.
+  intros (I1 & I2 & I3) Hstep. unfold hstep, hstep_g in Hstep. cbn [prio_step].
+  destruct (find_sub id (y_subs y)) as [s|] eqn:Ef.
+  - (* live: 1 <= id <= len ps *)
+    injection Hstep as <- <- <- <-. split; [|reflexivity].
+    destruct (find_sub_some _ _ _ Ef) as [Hin Hid]. destruct (I3 s Hin) as [Hr _].
+    rewrite Hid, I2 in Hr.
+    assert (Hb : (1 <=? id) && (id <=? len ps) = true) by (apply andb_true_iff; split; lia).
+    rewrite Hb. unfold Inv. cbn [y_subs y_nextsub set_subs].
+    split; [rewrite ids_replace; exact I1|].
+    split; [rewrite I2; unfold len; rewrite set_nth_length; reflexivity|].
+    intros x Hx. apply (in_replace_sub_strong _ _ _ I1) in Hx as [->|[Hx Hne]].
+    + cbn [modify_sub s_id s_prio]. rewrite Hid. split; [rewrite I2; lia|].
+      unfold pr. rewrite nth_set_nth_same; [reflexivity|]. unfold len in Hr. lia.
+    + cbn [modify_sub s_id] in Hne. rewrite Hid in Hne.
+      destruct (I3 x Hx) as [Hxr Hxp]. split; [exact Hxr|].
+      rewrite Hxp. unfold pr. rewrite nth_set_nth_other; [reflexivity|]. rewrite I2 in Hxr. lia.
+  - (* unknown id: the state is unchanged; an entry may be overwritten but it belongs to no
+       live subscription *)
+    injection Hstep as <- <- <- <-. split; [|reflexivity].
+    apply find_sub_none in Ef.
+    destruct ((1 <=? id) && (id <=? len ps)) eqn:Hb; [|repeat split; auto; apply I3; assumption].
+    apply andb_true_iff in Hb as [Hb1 Hb2].
+    unfold Inv. split; [exact I1|]. split; [rewrite I2; unfold len; rewrite set_nth_length; reflexivity|].
+    intros x Hx. destruct (I3 x Hx) as [Hxr Hxp]. split; [exact Hxr|].
+    rewrite Hxp. unfold pr. rewrite nth_set_nth_other; [reflexivity|].
+    assert (s_id x <> id) by (intros E; apply Ef; rewrite <- E; unfold ids; apply in_map; exact Hx).
+    rewrite I2 in Hxr. lia.
+Qed.
+
+(* every operation of a history keeps the invariant and satisfies the oracle *)
+Lemma hstep_ok ps h y opix y1 st m rs :
+  Inv ps y -> hstep y opix h = Some (y1, st, m, rs) ->
+  Inv (prio_step ps h) y1 /\
+  check_op (prio_step ps h) h (snapshot y) (mk_opres st m rs (snapshot y1)) = true.
+Proof.
+  intros HI Hs. destruct h as [o|id prio interval kac life].
+  - exact (step_ok ps o y opix y1 st m rs HI Hs).
+  - destruct (modify_ok _ _ _ _ _ _ _ _ _ _ _ _ HI Hs) as [HI1 ->]. split; [exact HI1|reflexivity].
+Qed.
+
+Lemma run_hops_ok : forall ops ps y opix,
+  Inv ps y -> check_trace ps ops (snapshot y) (fst (run_hops y opix ops)) = true.
+Proof.
+  induction ops as [|h ops IH]; intros ps y opix HI; [reflexivity|].
+  unfold run_hops in *. cbn [run_hops_g].
+  destruct (hstep_g sys_tick y opix h) as [[[[y1 st] m] rs]|] eqn:Es; [|reflexivity].
+  destruct (run_hops_g sys_tick y1 (opix + 1) ops) as [tr p] eqn:Er. cbn [fst check_trace o_snap].
+  destruct (hstep_ok ps h y opix y1 st m rs HI Es) as [HI1 Hck]. rewrite Hck. cbn [andb].
+  specialize (IH (prio_step ps h) y1 (opix + 1) HI1). rewrite Er in IH. exact IH.
+Qed.
+
+Lemma init_inv c : Inv [] (hinit c).
+Proof. unfold Inv, hinit, init. cbn. split; [constructor|]. split; [reflexivity|]. intros s []. Qed.
 
 Theorem oracle_holds c : oracle c (run c) = true.
 Proof.
   unfold oracle, run. rewrite decode_enc. destruct (run_ev c) as [tr p] eqn:E.
-  pose proof (run_ops_ok c (c_ops c) [] (init c) 0 eq_refl (init_inv c)) as H.
+  pose proof (run_hops_ok (h_ops c) [] (hinit c) 0 (init_inv c)) as H.
   unfold run_ev in E. rewrite E in H. exact H.
 Qed.
 
@@ -480,34 +553,59 @@ Proof.
   destruct (C s' Hs') as (s0 & H0 & E1 & E2). rewrite E1, <- (HP s0 H0), <- E2. exact Hlt.
 Qed.
 
-(* the distinct-id premise holds in every state a history can reach *)
-Fixpoint run_state (y : sys) (opix : Z) (ops : list op) : option sys :=
+(* the state after a history *)
+Fixpoint run_state (y : sys) (opix : Z) (ops : list hop) : option sys :=
   match ops with
   | [] => Some y
-  | o :: r => match step y opix o with
+  | h :: r => match hstep y opix h with
               | Some (y1, _, _, _) => run_state y1 (opix + 1) r
               | None => None
               end
   end.
 
-Lemma run_state_inv c : forall ops pre rest y opix y',
-  c_ops c = pre ++ ops ++ rest -> Inv c pre y -> run_state y opix ops = Some y' ->
-  Inv c (pre ++ ops) y'.
+Lemma run_state_inv : forall ops pre y opix y',
+  Inv (prios_after pre) y -> run_state y opix ops = Some y' -> Inv (prios_after (pre ++ ops)) y'.
 Proof.
-  induction ops as [|o ops IH]; intros pre rest y opix y' Hc HI H.
+  induction ops as [|h ops IH]; intros pre y opix y' HI H.
   - cbn in H. inversion H; subst. rewrite app_nil_r. exact HI.
-  - cbn [run_state] in H. destruct (step y opix o) as [[[[y1 st] m] rs]|] eqn:Es; [|discriminate].
-    destruct (step_ok c pre o (ops ++ rest) y opix y1 st m rs Hc HI Es) as [HI1 _].
-    replace (pre ++ o :: ops) with ((pre ++ [o]) ++ ops) by (rewrite <- app_assoc; reflexivity).
-    apply (IH (pre ++ [o]) rest y1 (opix + 1) y'); [rewrite <- app_assoc; exact Hc | exact HI1 | exact H].
+  - cbn [run_state] in H. destruct (hstep y opix h) as [[[[y1 st] m] rs]|] eqn:Es; [|discriminate].
+    destruct (hstep_ok _ h y opix y1 st m rs HI Es) as [HI1 _].
+    rewrite <- prios_after_snoc in HI1.
+    replace (pre ++ h :: ops) with ((pre ++ [h]) ++ ops) by (rewrite <- app_assoc; reflexivity).
+    apply (IH (pre ++ [h]) y1 (opix + 1) y' HI1 H).
 Qed.
 
+Lemma reachable_inv c k y' :
+  run_state (hinit c) 0 (firstn k (h_ops c)) = Some y' -> Inv (prios_after (firstn k (h_ops c))) y'.
+Proof. intros H. exact (run_state_inv _ [] _ _ _ (init_inv c) H). Qed.
+
+(* the distinct-id premise holds in every state a history can reach *)
 Theorem reachable_distinct_ids c k y' :
-  run_state (init c) 0 (firstn k (c_ops c)) = Some y' -> NoDup (ids (y_subs y')).
+  run_state (hinit c) 0 (firstn k (h_ops c)) = Some y' -> NoDup (ids (y_subs y')).
+Proof. intros H. destruct (reachable_inv c k y' H) as [Hnd _]. exact Hnd. Qed.
+
+(* in every state a history can reach, the priority of every live subscription is the one the
+   client asked for last (at creation or in a later ModifySubscription) *)
+Theorem reachable_priorities c k y' :
+  run_state (hinit c) 0 (firstn k (h_ops c)) = Some y' ->
+  forall s, In s (y_subs y') -> s_prio s = prio_at (firstn k (h_ops c)) (s_id s).
+Proof. intros H s Hs. destruct (reachable_inv c k y' H) as (_ & _ & I3). apply I3. exact Hs. Qed.
+
+(* hence: a scheduling round started from any reachable state (whatever the clock, the request
+   queue and the retransmission queue are by then) serves by the priorities requested last *)
+Theorem history_round c k y y2 timer y' rs :
+  run_state (hinit c) 0 (firstn k (h_ops c)) = Some y ->
+  y_subs y2 = y_subs y ->
+  sys_tick y2 timer = Some (y', rs) ->
+  let P := prio_at (firstn k (h_ops c)) in
+  non_increasing (map P (resp_subs rs)) = true /\
+  (forall i s', In i (resp_subs rs) -> In s' (y_subs y') -> P i < P (s_id s') -> s_notifs s' = []).
 Proof.
-  intros H.
-  assert (Hc : c_ops c = [] ++ firstn k (c_ops c) ++ skipn k (c_ops c)) by (cbn [app]; symmetry; apply firstn_skipn).
-  destruct (run_state_inv c _ _ _ _ _ _ Hc (init_inv c) H) as [Hnd _]. exact Hnd.
+  intros H E Ht P. destruct (reachable_inv c k y H) as (I1 & _ & I3).
+  assert (HP : forall s, In s (y_subs y2) -> s_prio s = P (s_id s)) by (rewrite E; intros s Hs; apply I3; exact Hs).
+  rewrite <- E in I1.
+  destruct (sys_tick_prio sub_tick sub_tick_keeps P _ _ _ _ I1 HP Ht) as (A & B & _).
+  split; [exact A | exact B].
 Qed.
 
 (* non-vacuity *)
@@ -522,11 +620,46 @@ Proof. split; [repeat constructor; cbn; intuition lia | vm_compute; reflexivity]
 
 (* the design-round witness: priorities 1 and 200 both have data, one request *)
 Definition witness : case :=
-  mk_case 1 [OCreateSub 1 1000 3 1000 true; OCreateSub 200 1000 3 1000 true;
+  mk_hist 1 (map HOp [OCreateSub 1 1000 3 1000 true; OCreateSub 200 1000 3 1000 true;
              OCreateItem 1 0 2 (-1) 4 true; OCreateItem 2 0 2 (-1) 4 true;
-             OTick 0; OTick 1000; OPublish 0 0 []; OWrite 0 5; OTick 1000; OTick 1000].
+             OTick 0; OTick 1000; OPublish 0 0 []; OWrite 0 5; OTick 1000; OTick 1000]).
 
 Lemma legacy_refuted : oracle witness (Legacy.run witness) = false.
 Proof. vm_compute. reflexivity. Qed.
 Example witness_ok : oracle witness (run witness) = true.
 Proof. vm_compute. reflexivity. Qed.
+
+(* a priority changed between two rounds: A (10), B (200), C (100) all have data; the first
+   request goes to B; then A is modified to 250 and the next request must go to A, the third to C *)
+Definition witness_modify : case :=
+  mk_hist 1 [HOp (OCreateSub 10 1000 3 1000 true); HOp (OCreateSub 200 1000 3 1000 true);
+             HOp (OCreateSub 100 1000 3 1000 true);
+             HOp (OCreateItem 1 0 2 (-1) 4 true); HOp (OCreateItem 2 0 2 (-1) 4 true);
+             HOp (OCreateItem 3 0 2 (-1) 4 true);
+             HOp (OTick 0); HOp (OTick 1000); HOp (OPublish 0 0 []);
+             HModifySub 1 250 1000 3 1000; HOp (OPublish 0 0 []); HOp (OPublish 0 0 [])].
+
+Definition answered_per_op (out : list Z) : list (list Z) :=
+  match decode out with Some (tr, _) => map (fun r => resp_subs (o_resps r)) tr | None => [] end.
+
+Example witness_modify_order :
+  answered_per_op (run witness_modify) = [[]; []; []; []; []; []; []; []; [2]; []; [1]; [3]] /\
+  oracle witness_modify (run witness_modify) = true.
+Proof. vm_compute. split; reflexivity. Qed.
+
+(* the state after the ModifySubscription of [witness_modify]: subscription 1 is scheduled with
+   the priority requested last (non-vacuity of reachable_priorities / history_round) *)
+Example witness_modify_state :
+  match run_state (hinit witness_modify) 0 (firstn 10 (h_ops witness_modify)) with
+  | Some y => map (fun s => (s_id s, s_prio s)) (y_subs y) = [(1, 250); (2, 200); (3, 100)] /\
+              map (prio_at (firstn 10 (h_ops witness_modify))) [1; 2; 3] = [250; 200; 100] /\
+              map (prio_at (firstn 9 (h_ops witness_modify))) [1; 2; 3] = [10; 200; 100]
+  | None => False
+  end.
+Proof. vm_compute. repeat split; reflexivity. Qed.
+
+(* a server that ignores the new priority answers C before A and is rejected by the oracle *)
+Lemma no_prio_change_refuted :
+  answered_per_op (NoPrioChange.run witness_modify) = [[]; []; []; []; []; []; []; []; [2]; []; [3]; [1]] /\
+  oracle witness_modify (NoPrioChange.run witness_modify) = false.
+Proof. vm_compute. split; reflexivity. Qed.
